@@ -41,6 +41,13 @@ def run(tier):
                 suite.proportional('gate2zx[%s%s].denotes' % (cls.__name__, bits), mat_list(zx_matrix(d)),
                                    mat_list(M), functions=fz, what='basis states / effects')
     a, b = sympy.symbols('a b', real=True)
+    for zero in (0, 0., 0j):
+        suite.identity('gate2zx[scalar(%r)].denotes' % (zero,), mat_list(zx_matrix(zx.gate2zx(scalar(zero)))), [[0]],
+                       functions=['quantum.zx.gate2zx', 'quantum.zx.scalar'],
+                       what='a circuit that evaluates to the zero map is sent to a ZX diagram denoting the zero map '
+                            '(the scalar factor of the translation must be non-zero)')
+    suite.identity('circuit2zx[scalar(0) @ H].denotes', mat_list(zx_matrix(zx.circuit2zx(scalar(0) @ gates.H))), [[0, 0], [0, 0]],
+                   functions=['quantum.zx.gate2zx', 'quantum.zx.scalar'], what='idem inside a circuit')
     suite.identity('gate2zx[scalar].denotes', mat_list(zx_matrix(zx.gate2zx(scalar(a + I * b)))), [[a + I * b]],
                    extra=(a, b), functions=fz)
     refused = False
